@@ -7,7 +7,10 @@ XAtoms == {A("nil", "x", ""), A("notnil", "x", ""), A("isa", "x", "Integer")}
           \cup (IF Rich THEN {A("isa", "x", "String")} ELSE {})
 YAtoms == {A("isa", "y", "String"), A("isa", "y", "Float")}
           \cup (IF Rich THEN {A("nil", "y", ""), A("notnil", "y", "")} ELSE {})
+\* conjunctions: one test of x with one of y, and two different tests of the same variable
+SameVar == {<<a, b>> : a \in XAtoms, b \in XAtoms} \cup {<<a, b>> : a \in YAtoms, b \in YAtoms}
 MCConds == {<<a>> : a \in XAtoms \cup YAtoms} \cup {<<a, b>> : a \in XAtoms, b \in YAtoms}
+           \cup {c \in SameVar : c[1] # c[2]}
 MCInitX == {{"Integer", "NilClass"}} \cup (IF Rich THEN {{"Integer", "String", "NilClass"}} ELSE {})
 MCInitY == {{"String", "Float"}} \cup (IF Rich THEN {{"String", "Float", "NilClass"}} ELSE {})
 
